@@ -12,6 +12,7 @@ import (
 )
 
 type Env struct {
+	vars  map[int]Value // placeholder bindings: results then binders
 	u     *Unit
 	st    *State
 	fr    *Frame // for locals (invariants); nil at function boundaries
@@ -77,10 +78,11 @@ func (env *Env) bindResults(cl *Clause, ct *Contract, ret Value) {
 	} else if ret != nil {
 		vals = []Value{ret}
 	}
-	for i, o := range cl.resObjs {
-		if o != nil && i < len(vals) {
-			env.objs[o] = vals[i]
-		}
+	if env.vars == nil {
+		env.vars = map[int]Value{}
+	}
+	for i, v := range vals {
+		env.vars[i] = v
 	}
 }
 
@@ -117,6 +119,8 @@ func isNilIdent(ex ast.Expr) bool {
 
 func (env *Env) eval(cl *Clause, ex ast.Expr) Value {
 	u, st := env.u, env.st
+	u.specMode++
+	defer func() { u.specMode-- }()
 	tv := cl.Info.Types[ex]
 	if tv.Value != nil {
 		return u.constVal(st, tv.Type, tv.Value)
@@ -344,6 +348,13 @@ func (env *Env) evalCall(cl *Clause, x *ast.CallExpr) Value {
 	if !ok {
 		specFail("unsupported call in spec")
 	}
+	if i, ok := specVarIndex(x); ok {
+		v, bound := env.vars[i]
+		if !bound {
+			specFail("placeholder %d is not bound here", i)
+		}
+		return v
+	}
 	switch id.Name {
 	case "iter":
 		if env.fr == nil {
@@ -358,13 +369,20 @@ func (env *Env) evalCall(cl *Clause, x *ast.CallExpr) Value {
 		if env.entry == nil {
 			specFail("old() without entry state")
 		}
-		o := &Env{u: u, st: env.entry, objs: map[types.Object]Value{}, entry: env.entry, eargs: env.eargs, ct: env.ct}
+		o := &Env{u: u, st: env.entry, objs: map[types.Object]Value{}, entry: env.entry, eargs: env.eargs, ct: env.ct, vars: env.vars}
 		for k, v := range env.objs {
 			o.objs[k] = v
 		}
 		for k, v := range env.eargs {
 			o.objs[k] = v
 		}
+		return o.eval(cl, x.Args[0])
+	case "before": // value of an expression at the entry of the enclosing annotated loop
+		if env.snap == nil {
+			specFail("before() outside a loop")
+		}
+		o := *env
+		o.st = env.snap
 		return o.eval(cl, x.Args[0])
 	case "unchanged":
 		if env.snap == nil {
@@ -665,7 +683,7 @@ func (u *Unit) valueEq(st *State, a, b Value) (*Term, bool) {
 		if x.R == y.R {
 			return And(Eq(x.Off, y.Off), Eq(x.Len, y.Len)), true
 		}
-		return nil, false
+		return And(Eq(x.Len, IntK(0)), Eq(y.Len, IntK(0))), true // identity: different backing arrays
 	case StringV:
 		y, ok := b.(StringV)
 		if !ok {
@@ -685,6 +703,16 @@ func (u *Unit) valueEq(st *State, a, b Value) (*Term, bool) {
 		if y, ok := b.(IfaceV); ok && y.Typ == nil {
 			return Eq(x.Tag, IntK(0)), true
 		}
+		if y, ok := b.(SymIface); ok {
+			if x.R == y.R && x.Idx == y.Idx && x.Path == y.Path {
+				return True, true
+			}
+			return Eq(x.Tag, y.Tag), true
+		}
+	case ElemPtr:
+		if y, ok := b.(ElemPtr); ok {
+			return And(BoolK(x.R == y.R && x.Path == y.Path), Eq(x.Idx, y.Idx)), true
+		}
 	case PtrV:
 		if y, ok := b.(PtrV); ok {
 			return BoolK(x.Obj == y.Obj && fmt.Sprint(x.Path) == fmt.Sprint(y.Path)), true
@@ -697,8 +725,11 @@ func (u *Unit) valueEq(st *State, a, b Value) (*Term, bool) {
 // registered as a lazily instantiated hypothesis (and True is returned) when it has binders.
 func (env *Env) formula(cl *Clause, asGoal bool) (res *Term) {
 	bind := func(e *Env, ks []*Term) {
-		for i, o := range cl.bindObj {
-			e.objs[o] = IntV{ks[i], true}
+		if e.vars == nil {
+			e.vars = map[int]Value{}
+		}
+		for i := range cl.Binders {
+			e.vars[cl.nRes+i] = IntV{ks[i], true}
 		}
 	}
 	if len(cl.Binders) == 0 {
@@ -735,9 +766,12 @@ func (env *Env) formula(cl *Clause, asGoal bool) (res *Term) {
 	}
 	// hypothesis: instantiate lazily against a snapshot of the current state
 	snap := env.st.clone()
-	senv := &Env{u: env.u, st: snap, fr: env.fr, objs: map[types.Object]Value{}, entry: env.entry, eargs: env.eargs, snap: env.snap, cells: env.cells, ct: env.ct}
+	senv := &Env{u: env.u, st: snap, fr: env.fr, objs: map[types.Object]Value{}, entry: env.entry, eargs: env.eargs, snap: env.snap, cells: env.cells, ct: env.ct, vars: map[int]Value{}}
 	for k, v := range env.objs {
 		senv.objs[k] = v
+	}
+	for k, v := range env.vars {
+		senv.vars[k] = v
 	}
 	if env.fr != nil {
 		senv.fr = env.fr.clone()
